@@ -32,6 +32,11 @@ def model_phase(ctx):
         if r.violated != inv:
             raise Machinery("the pinned mechanism does not violate %s on the aliasing alphabet (vacuous model?): %r" % (inv, r))
         found[inv] = r.depth
+    c = gc.cfg("MechCopyDataShares", ALIAS_FAMS, (1, 2), (1,), 2, ["NoSharedDatasets"])
+    r = ctx.tlc("GridLazy", c, what="GridLazy(MechCopyDataShares) must violate NoSharedDatasets", workers=4, count=False, timeout=600)
+    if r.violated != "NoSharedDatasets":
+        raise Machinery("a copy route that keeps the original's grid does not violate NoSharedDatasets in the model: %r" % r)
+    found["copy_route_shares"] = r.depth
     ctx.note("pinned_mechanism_counterexamples", found)
 
 
